@@ -11,6 +11,6 @@ CONSTANTS
   InitTables <- MCInitTables
   MaxDepth = 3
   MaxMgmt = 2
-  MaxTx = 2
+  MaxTx = 1
 INVARIANTS FlagsShrink CallImpliesAllowCall NoCallToDead SafeStripped CallImpliesPermission EffectImpliesFlag SafeNeverWrites NoBlockedRedeploy Coherent
 CHECK_DEADLOCK FALSE
